@@ -40,6 +40,29 @@ reg("C02",
       funcs=["parse_tls_raw_record"]),
     H("c02", "c02_encrypted_cap", bounds="16650-byte zero array, symbolic 5-byte header, symbolic length 0..=16650",
       funcs=["parse_tls_encrypted"]),
+    H("c02", "c02_plaintext_wiring", bounds="12-byte buffer, symbolic length, all bytes symbolic; content dispatcher stubbed",
+      stubs=["parse_tls_record_with_header"], funcs=["parse_tls_plaintext"]),
+    H("c02", "c02_plaintext_ccs_2", bounds="ChangeCipherSpec record, length 2 concrete, payload+version+2 trailing bytes symbolic", funcs=["parse_tls_plaintext", "parse_tls_record_with_header"]),
+    H("c02", "c02_plaintext_alert_3", bounds="alert record, length 3 concrete, payload symbolic", funcs=["parse_tls_message_alert"]),
+    H("c02", "c02_plaintext_appdata_2", bounds="application-data record, length 2 concrete, payload symbolic", funcs=["parse_tls_message_applicationdata"]),
+    H("c02", "c02_plaintext_heartbeat_0", bounds="heartbeat record, length 0", funcs=["parse_tls_message_heartbeat"]),
+    H("c02", "c02_plaintext_heartbeat_2", bounds="heartbeat record, length 2 concrete, payload symbolic", funcs=["parse_tls_message_heartbeat"]),
+    H("c02", "c02_plaintext_heartbeat_3", bounds="heartbeat record, length 3 concrete, payload symbolic", funcs=["parse_tls_message_heartbeat"]),
+    H("c02", "c02_plaintext_heartbeat_5", bounds="heartbeat record, length 5 concrete, payload symbolic", funcs=["parse_tls_message_heartbeat"]),
+    )
+
+# ------------------------------------------------------------------------------------------------ C03
+_RWH = ["parse_tls_record_with_header"]
+reg("C03",
+    H("c03", "c03_two_ccs", bounds="two-step, CCS payload <= 4 B symbolic length", funcs=_RWH + ["parse_tls_message_changecipherspec"]),
+    H("c03", "c03_two_alert", bounds="two-step, alert payload <= 5 B symbolic length", funcs=_RWH + ["parse_tls_message_alert"]),
+    H("c03", "c03_two_appdata", bounds="two-step, application data payload <= 4 B symbolic length", funcs=_RWH + ["parse_tls_message_applicationdata"]),
+    H("c03", "c03_two_heartbeat", bounds="two-step, heartbeat payload <= 8 B symbolic length", funcs=_RWH + ["parse_tls_message_heartbeat"]),
+    *[H("c03", "c03_two_unknown_%s" % t, bounds="two-step, content type 0x%s, payload <= 3 B" % t, funcs=_RWH) for t in ("00", "13", "19", "ff")],
+    *[H("c03", "c03_one_%s" % n, bounds="one-step vs two-step, record length concrete (%s), payload/version/trailing byte symbolic" % n,
+        funcs=["parse_tls_plaintext", "parse_tls_raw_record"] + _RWH, timeout=600)
+      for n in ("ccs_0", "ccs_1", "ccs_2", "alert_1", "alert_2", "alert_3", "appdata_0", "appdata_1", "appdata_3",
+                "heartbeat_2", "heartbeat_3", "heartbeat_4", "heartbeat_6")],
     )
 
 # ------------------------------------------------------------------------------------------------ C08
